@@ -227,6 +227,9 @@ pub fn update_fabric_label(label: &str) -> Vec<u8> {
 pub fn set_vid_verification_statement(vendor_id: u16) -> Vec<u8> {
     invoke_with(CL_OP_CREDS, 0x0C, false, |tw| {
         tw.u16(&TLVTag::Context(0), vendor_id).unwrap();
+        // an 85-byte VID verification statement
+        let vvs: Vec<u8> = (0..85u8).map(|i| i.wrapping_mul(3).wrapping_add(1)).collect();
+        tw.str(&TLVTag::Context(1), &vvs).unwrap();
     })
 }
 
@@ -236,12 +239,13 @@ pub fn key_set_write(key_set_id: u16) -> Vec<u8> {
         tw.start_struct(&TLVTag::Context(0)).unwrap();
         tw.u16(&TLVTag::Context(0), key_set_id).unwrap();
         tw.u8(&TLVTag::Context(1), 0).unwrap();
+        // three epoch keys with increasing start times
         tw.str(&TLVTag::Context(2), &[0x33; 16]).unwrap();
         tw.u64(&TLVTag::Context(3), 1).unwrap();
-        tw.null(&TLVTag::Context(4)).unwrap();
-        tw.null(&TLVTag::Context(5)).unwrap();
-        tw.null(&TLVTag::Context(6)).unwrap();
-        tw.null(&TLVTag::Context(7)).unwrap();
+        tw.str(&TLVTag::Context(4), &[0x44; 16]).unwrap();
+        tw.u64(&TLVTag::Context(5), 0x1_0000_0002).unwrap();
+        tw.str(&TLVTag::Context(6), &[0x55; 16]).unwrap();
+        tw.u64(&TLVTag::Context(7), 0xFFFF_FFFF_FFFF_FFF0).unwrap();
         tw.end_container().unwrap();
     })
 }
